@@ -144,6 +144,18 @@ def run_chain(prog, out):
             rp.dumps(obj)
         except Warning:
             raised_at = 'dumps'
+            # the verdict on a class must not depend on how often it has been asked for: a second and third attempt (a retry, another
+            # protocol, the class nested in a container) have to be rejected just the same
+            for attempt, thing in enumerate((obj, [obj], {'k': obj})):
+                try:
+                    rp.dumps(thing, protocol=(2 + attempt) if attempt else None)
+                    out.viol('inconsistent_chain_accepted_on_retry', 'chain', f'{prog}: the first dumps raised Warning, attempt {attempt + 2} was accepted (flags seen: {calls[-3:]})')
+                    break
+                except Warning:
+                    pass
+                except Exception as e:
+                    out.viol('chain_dumps_raised:' + type(e).__name__, 'chain:' + verdict + ':retry', f'{prog}: {e!r}')
+                    break
         except Exception as e:
             out.viol('chain_dumps_raised:' + type(e).__name__, 'chain:' + verdict, f'{prog}: {e!r}')
             return
